@@ -23,7 +23,7 @@ def units(tier, seed):
            if e1.is_framing(c) and c.__name__ in DECLARED and c.__module__ in MODULES]
     for u in hdr:
         u.name = 'header/' + u.name
-    return list(us) + hdr + [hello.unit(('K6', 'K3'), 'K6+K3')] + foundation.units(tier, seed)
+    return list(us) + hdr + [hello.unit(('K6', 'K3'), 'K6+K3'), hello.decode_unit()] + foundation.units(tier, seed)
 
 
 FINDING_REPLAYS = regions.finding_replays('C06')
